@@ -335,7 +335,7 @@ def check(pid, tier, seed, replay=None):
     for e in open_known:
         if e["id"] in known_hits:
             log("KNOWN-FINDING: property=%s %s: %s (%d recorded occurrences)" % (pid, e["id"], e["what"], len(known_hits[e["id"]])))
-    rdir = os.path.join(ROOT, "replays", pid)
+    rdir = os.path.join(os.environ.get("EGV_WORK") or ROOT, "replays", pid)
     shown = 0
     seen_cases = set()
     if violations:
@@ -397,7 +397,7 @@ def check(pid, tier, seed, replay=None):
         coverage["explanation"] = P["explanation"]
     ev = {"property_id": pid, "tier": tier, "seed": seed, "level": P["level"], "coverage": coverage,
           "assumptions": P.get("assumptions", []), "wall_s": round(time.time() - t0, 1), "violations": len(seen_cases)}
-    if not replay:
+    if not replay and not os.environ.get("EGV_NOEVIDENCE"):
         write_evidence(pid, ev)
     log("%s %s: cases=%d events=%d mc_states=%d trace_states=%d drift=%d known=%d violations=%d wall=%.0fs"
         % (pid, tier, cases, sum(ev_counts.values()), mc_dist, tr_states, len(drifts), len(known_hits), len(seen_cases), time.time() - t0))
